@@ -8,12 +8,17 @@ import (
 	"fmt"
 	"math/big"
 	"os"
+	"sync"
+	"time"
 
 	"github.com/formancehq/go-libs/v5/pkg/types/metadata"
 
 	ledger "github.com/formancehq/ledger/internal"
 	"github.com/formancehq/ledger/internal/storage/bucket"
+	"github.com/formancehq/go-libs/v5/pkg/storage/postgres"
+	"github.com/formancehq/ledger/internal/storage/common"
 	ledgerstore "github.com/formancehq/ledger/internal/storage/ledger"
+	systemstore "github.com/formancehq/ledger/internal/storage/system"
 	"github.com/formancehq/ledger/internal/verif/pgfake"
 )
 
@@ -70,5 +75,236 @@ func smokeMain(args []string) int {
 		return fail("Dump", err)
 	}
 	fmt.Println("dump:", string(d))
+	return 0
+}
+
+// sysSmokeMain: the system store and the state tracker's raw SQL over LeanPG.
+func sysSmokeMain(args []string) int {
+	srv, err := pgfake.Start(pgfake.DefaultLpgPath())
+	if err != nil {
+		fmt.Fprintln(os.Stderr, err)
+		return 1
+	}
+	defer srv.Close()
+	ctx := context.Background()
+	check := func(what string, err error) bool {
+		if err != nil {
+			fmt.Fprintln(os.Stderr, what+":", err)
+			for _, s := range srv.Log() {
+				if s.Err != "" {
+					fmt.Fprintf(os.Stderr, "  [%s] %s\n", s.Err, s.SQL)
+				}
+			}
+			return false
+		}
+		return true
+	}
+	sys := systemstore.New(srv.DB())
+	l1 := ledger.MustNewWithDefault("l1")
+	l2 := ledger.MustNewWithDefault("l2")
+	if !check("create l1", srv.CreateLedgerInSystem(ctx, &l1)) || !check("create l2", srv.CreateLedgerInSystem(ctx, &l2)) {
+		return 1
+	}
+	fmt.Println("ids:", l1.ID, l2.ID, "addedAt:", l1.AddedAt)
+	dup := ledger.MustNewWithDefault("l1")
+	fmt.Println("duplicate:", srv.CreateLedgerInSystem(ctx, &dup))
+	n, err := sys.CountLedgersInBucket(ctx, "_default")
+	if !check("count", err) {
+		return 1
+	}
+	fmt.Println("count:", n)
+	if !check("update metadata", sys.UpdateLedgerMetadata(ctx, "l1", metadata.Metadata{"a": "b"})) {
+		return 1
+	}
+	if !check("delete metadata", sys.DeleteLedgerMetadata(ctx, "l1", "zz")) {
+		return 1
+	}
+	got, err := sys.GetLedger(ctx, "l1")
+	if !check("get", err) {
+		return 1
+	}
+	b, _ := json.Marshal(got)
+	fmt.Println("l1:", string(b), "state:", got.State)
+	cur, err := sys.Ledgers().Paginate(ctx, common.InitialPaginatedQuery[systemstore.ListLedgersQueryPayload]{PageSize: 10})
+	if !check("list", err) {
+		return 1
+	}
+	fmt.Println("listed:", len(cur.Data))
+	bk, err := sys.GetDistinctBuckets(ctx)
+	if !check("buckets", err) {
+		return 1
+	}
+	fmt.Println("buckets:", bk)
+	// state tracker statements
+	_, err = srv.DB().NewUpdate().Model(&l1).Set("state = ?", ledger.StateInUse).Where("id = ? and state = ?", l1.ID, ledger.StateInitializing).Exec(ctx)
+	if !check("state update", err) {
+		return 1
+	}
+	_, err = srv.DB().NewRaw(fmt.Sprintf(`select setval('"%s"."transaction_id_%d"', (select max(id) from "%s".transactions where ledger = '%s')::bigint)`, l1.Bucket, l1.ID, l1.Bucket, l1.Name)).Exec(ctx)
+	if !check("setval", err) {
+		return 1
+	}
+	// exporters / pipelines
+	exp := ledger.NewExporter(ledger.NewExporterConfiguration("exporter1", json.RawMessage(`{}`)))
+	if !check("create exporter", sys.CreateExporter(ctx, exp)) {
+		return 1
+	}
+	pip := ledger.NewPipeline(ledger.NewPipelineConfiguration("l1", exp.ID))
+	if !check("create pipeline", sys.CreatePipeline(ctx, pip)) {
+		return 1
+	}
+	fmt.Println("duplicate pipeline:", sys.CreatePipeline(ctx, ledger.NewPipeline(ledger.NewPipelineConfiguration("l1", exp.ID))))
+	orphan := ledger.NewPipeline(ledger.NewPipelineConfiguration("l1", "nope"))
+	fmt.Println("orphan pipeline:", postgres.ResolveError(sys.CreatePipeline(ctx, orphan)))
+	if !check("store state", sys.StorePipelineState(ctx, pip.ID, 42)) {
+		return 1
+	}
+	up, err := sys.UpdatePipeline(ctx, pip.ID, map[string]any{"enabled": true})
+	if !check("update pipeline", err) {
+		return 1
+	}
+	fmt.Println("pipeline:", up.Enabled, up.LastLogID)
+	en, err := sys.ListEnabledPipelines(ctx)
+	if !check("enabled", err) {
+		return 1
+	}
+	fmt.Println("enabled pipelines:", len(en))
+	if !check("delete exporter", sys.DeleteExporter(ctx, exp.ID)) {
+		return 1
+	}
+	_, err = sys.GetPipeline(ctx, pip.ID)
+	fmt.Println("pipeline after cascade:", err)
+	return 0
+}
+
+// schedSmokeMain: three tasks commit transactions on overlapping accounts under
+// the deterministic scheduler; prints the interleaving and checks that the same
+// seed reproduces it.
+func schedSmokeMain(args []string) int {
+	seed := int64(1)
+	if len(args) > 0 {
+		fmt.Sscan(args[0], &seed)
+	}
+	runOnce := func(opts pgfake.SchedOptions) (pgfake.SchedResult, string, error) {
+		srv, err := pgfake.Start(pgfake.DefaultLpgPath())
+		if err != nil {
+			return pgfake.SchedResult{}, "", err
+		}
+		defer srv.Close()
+		l := ledger.MustNewWithDefault("sched")
+		if err := srv.CreateLedgerInSystem(context.Background(), &l); err != nil {
+			return pgfake.SchedResult{}, "", err
+		}
+		store := ledgerstore.New(srv.DB(), bucket.NewDefaultFactory().Create(l.Bucket), l)
+		sch := pgfake.NewScheduler(srv, opts)
+		var mu sync.Mutex
+		outcomes := map[string]string{}
+		mk := func(name, src, dst string, amount int64) {
+			sch.Go(name, func(ctx context.Context) {
+				st, tx, err := store.BeginTX(ctx, nil)
+				if err == nil {
+					_, err = st.GetBalances(ctx, ledgerstore.BalanceQuery{src: {"USD"}})
+				}
+				if err == nil {
+					t := ledger.NewTransaction().WithPostings(ledger.NewPosting(src, dst, "USD", big.NewInt(amount)))
+					err = st.CommitTransaction(ctx, &t)
+				}
+				if err == nil {
+					err = tx.Commit()
+				} else if tx != nil {
+					_ = tx.Rollback()
+				}
+				mu.Lock()
+				outcomes[name] = fmt.Sprint(err)
+				mu.Unlock()
+			})
+		}
+		mk("a", "acc:1", "acc:2", 10)
+		mk("b", "acc:2", "acc:1", 20)
+		mk("c", "acc:1", "acc:3", 5)
+		res := sch.Run()
+		d, err := srv.Dump(l.Name)
+		if err != nil {
+			return res, "", err
+		}
+		var dump map[string][]map[string]any
+		_ = json.Unmarshal(d, &dump)
+		var vols []string
+		for _, r := range dump["_default.accounts_volumes"] {
+			vols = append(vols, fmt.Sprintf("%v:%v/%v", r["accounts_address"], r["input"], r["output"]))
+		}
+		return res, fmt.Sprintf("outcomes=%v volumes=%v", outcomes, vols), nil
+	}
+	res, summary, err := runOnce(pgfake.SchedOptions{Seed: seed})
+	if err != nil {
+		fmt.Fprintln(os.Stderr, err)
+		return 1
+	}
+	for _, e := range res.Events {
+		sql := e.SQL
+		if len(sql) > 90 {
+			sql = sql[:90] + "…"
+		}
+		fmt.Printf("%3d %s s%d %-10s %s\n", e.Step, e.Task, e.Session, e.Result, sql)
+	}
+	fmt.Println("choices:", res.Choices, "stuck:", res.Stuck)
+	fmt.Println(summary)
+	res2, summary2, err := runOnce(pgfake.SchedOptions{Choices: res.Choices})
+	if err != nil {
+		fmt.Fprintln(os.Stderr, err)
+		return 1
+	}
+	same := len(res.Events) == len(res2.Events) && summary == summary2
+	for i := range res.Events {
+		if i < len(res2.Events) && (res.Events[i].Task != res2.Events[i].Task || res.Events[i].Result != res2.Events[i].Result) {
+			same = false
+		}
+	}
+	fmt.Println("replay identical:", same)
+	if !same {
+		fmt.Println(summary2)
+		return 1
+	}
+	return 0
+}
+
+// benchMain: n commits on one ledger (performance probe).
+func benchMain(args []string) int {
+	n := 500
+	if len(args) > 0 {
+		fmt.Sscan(args[0], &n)
+	}
+	srv, err := pgfake.Start(pgfake.DefaultLpgPath())
+	if err != nil {
+		fmt.Fprintln(os.Stderr, err)
+		return 1
+	}
+	defer srv.Close()
+	ctx := context.Background()
+	l := ledger.MustNewWithDefault("bench")
+	if err := srv.CreateLedgerInSystem(ctx, &l); err != nil {
+		fmt.Fprintln(os.Stderr, err)
+		return 1
+	}
+	store := ledgerstore.New(srv.DB(), bucket.NewDefaultFactory().Create(l.Bucket), l)
+	t0 := time.Now()
+	for i := 0; i < n; i++ {
+		tx := ledger.NewTransaction().WithPostings(ledger.NewPosting("world", fmt.Sprintf("users:%d", i%20), "USD", big.NewInt(100)),
+			ledger.NewPosting(fmt.Sprintf("users:%d", i%20), "bank", "USD", big.NewInt(10)))
+		if err := store.CommitTransaction(ctx, &tx); err != nil {
+			fmt.Fprintln(os.Stderr, err)
+			return 1
+		}
+		if (i+1)%100 == 0 {
+			fmt.Printf("%d commits: %.1fs\n", i+1, time.Since(t0).Seconds())
+		}
+	}
+	t1 := time.Now()
+	cur, err := store.Transactions().Paginate(ctx, common.InitialPaginatedQuery[any]{PageSize: 15})
+	if err != nil {
+		fmt.Fprintln(os.Stderr, err)
+		return 1
+	}
+	fmt.Printf("list page (%d rows): %.2fs\n", len(cur.Data), time.Since(t1).Seconds())
 	return 0
 }
